@@ -276,6 +276,7 @@ func (H) Gen(prop string, seed uint64, tier string) *hx.Case {
 		cfg.Now0 += int64(gap)
 	}
 	m := &ledger.Miner{L: l, W: ledger.NewWallet(walletSeed, walletKeys), R: r.Fork()}
+	m.ZeroValueOutputs = prop == "C17" || (prop == "C06" && r.Chance(0.3))
 	// register the prefix scripts with the wallet (same wallet seed => same scripts; walk the outputs)
 	registerPrefixScripts(m.W, cfg.Testnet)
 
@@ -1231,9 +1232,11 @@ func (r *run) boot() {
 	r.n = Boot(r.dir, NodeOpts{P: cfg.P, Genesis: cfg.genesis(), CompressBlocks: cfg.CompressBlocks, CacheBlocks: cfg.CacheBlocks,
 		MaxFileSize: uint64(cfg.MaxFileKB) << 10, ClientRecovery: cfg.ClientRecovery, LibraryTail: cfg.Testnet4, RealAlloc: cfg.RealAlloc})
 	if cfg.RealAlloc {
-		if k := r.n.Ballast(hx.NewRng(cfg.SchedSeed^0xBA11A57), r.prop == "C20"); k > 0 {
-			r.out.Probe("allocator_classes_with_slot_reuse", int64(k))
-		}
+		simrt.Quiet(func() {
+			if k := r.n.Ballast(hx.NewRng(cfg.SchedSeed^0xBA11A57), r.prop == "C20"); k > 0 {
+				r.out.Probe("allocator_classes_with_slot_reuse", int64(k))
+			}
+		})
 	}
 	if r.prop == "C17" {
 		common.BlockChain = r.n.Ch
